@@ -16,4 +16,5 @@ INVARIANT C14_Range
 INVARIANT C16_FirstHit
 INVARIANT C17_Rect
 INVARIANT C12_SplitAndRerun
+PROPERTY RefinesLockAbs
 CHECK_DEADLOCK FALSE
